@@ -289,6 +289,71 @@ def r3(ctx):
             ctx.ok(rule, "accessor:" + which, {"template": t, "body": nxt[0][1][:80]})
 
 
+LIMITS = {"I8": (-2 ** 7, 2 ** 7 - 1), "I16": (-2 ** 15, 2 ** 15 - 1), "I32": (-2 ** 31, 2 ** 31 - 1), "I64": (-2 ** 63, 2 ** 63 - 1),
+          "U8": (0, 2 ** 8 - 1), "U16": (0, 2 ** 16 - 1), "U32": (0, 2 ** 32 - 1), "U64": (0, 2 ** 64 - 1)}
+
+
+def _option_default(ex):
+    """(has default, constant or None) when the expression is an Option with a fallback value"""
+    e = ex
+    while e[0] in ("ref", "deref", "mut", "cast"):
+        e = e[2] if e[0] == "cast" else e[1]
+    if e[0] == "unwrap_or":
+        c = F.strip_casts(e[2])
+        return True, (c[1] if c[0] == "const" else None)
+    if e[0] == "call":
+        nm = X.last_seg(e[1] or "")
+        if nm == "unwrap_or" and len(e[3]) == 2:
+            c = F.strip_casts(e[3][1])
+            return True, (c[1] if c[0] == "const" else None)
+        if nm == "unwrap_or_default":
+            return True, 0
+    return False, None
+
+
+def r5(ctx):
+    rule = "C15.R5"
+    ctx.rule(rule, "absent bounds of an extensible INTEGER become the limits of the chosen type: where asn_extensible_integer_to_rust builds "
+                   "RustType::Ixx/Uxx(Range(lo, hi, true)) from an Option with a fallback, the fallback of the lower bound is the type's MIN "
+                   "and that of the upper bound the type's MAX (a fallback of 0 turns `-5..MAX,...` into the root range -5..0)")
+    P = ctx.program()
+    bs = [b for b in P.find("asn1rs_model", "::asn_extensible_integer_to_rust") if b.def_kind == "AssocFn"]
+    if len(bs) != 1:
+        ctx.fail(rule, "anchor-lost:asn_extensible_integer_to_rust", "matched %d bodies" % len(bs))
+        return
+    b = bs[0]
+    n = 0
+    for body in [b] + P.closures_of(b):
+        O = X.Origins(body, P)
+        for bb, j, st in body.all_statements():
+            rv = st.get("rv") or {}
+            if st["k"] != "assign" or rv.get("k") != "agg" or not rv.get("adt", "").endswith("rust::RustType") or rv.get("variant") not in LIMITS:
+                continue
+            ex = O.operand(rv["ops"][0], bb, j)
+            e = ex
+            while e[0] in ("ref", "deref", "mut"):
+                e = e[1]
+            if not (e[0] == "agg" and e[1] == "adt" and e[2].endswith("Range") and len(e[4]) >= 2):
+                continue
+            v = rv["variant"]
+            for idx, side in ((0, "lower"), (1, "upper")):
+                has, c = _option_default(e[4][idx][1])
+                if not has:
+                    continue
+                n += 1
+                want = LIMITS[v][idx]
+                key = "%s#%s" % (v, side)
+                detail = {"function": body.path, "variant": v, "bound": side, "fallback": c, "type_limit": want,
+                          "origin": X.render(e[4][idx][1])[:120]}
+                if c != want:
+                    ctx.fail(rule, key, "an absent %s bound of an extensible INTEGER is recorded as %s in RustType::%s, not as the type's limit %d: "
+                                        "the accessors and the printed attribute state a root range the schema does not have" % (side, c, v, want),
+                             span_loc(st["sp"]), detail)
+                else:
+                    ctx.ok(rule, key, detail)
+    ctx.floor(rule, n, "C15.R5.bounds")
+
+
 def _table_driven_accessors(ctx, rule, P, g, Og, fns, lines, detail):
     """the accessors written as a loop over a literal table `[("min", range.min()), ("max", range.max())]` whose first column is
     appended to the prefix (`{}{}`) and whose second column is the body line: each row pairs the word with the same-named getter"""
@@ -326,3 +391,4 @@ def run(ctx):
     r1(ctx)
     r2_r4(ctx)
     r3(ctx)
+    r5(ctx)
